@@ -79,9 +79,8 @@ Theorem C07_live_yields_only_contents : forall hi sched F f x, wf_forest f = tru
 Proof. exact drain_dyn_yields_contents. Qed.
 Print Assumptions C07_live_yields_only_contents.
 
-(* ... and when the run ends with the iterator exhausted, every entry was yielded. (That a `None`
-   answer with fuel trav_fuel f always means exhausted under interleaved migration is tested
-   exhaustively on small forests in Proofs/TravDynProofs.v - dyn_tested_A/B/C - not proved.) *)
+(* ... and when the run ends with the iterator exhausted, every entry was yielded; the version
+   with a fuel hypothesis instead of the exhaustion hypothesis is C07_live_complete below *)
 Theorem C07_live_complete_partial : forall hi sched F f, wf_forest f = true ->
   exhausted (snd (snd (drain_dyn_end hi sched F f (new_iter f)))) ->
   Permutation (drain_dyn hi sched F f (new_iter f)) (contents f).
@@ -90,3 +89,21 @@ Print Assumptions C07_live_complete_partial.
 
 (* non-vacuity: 2 bins migrated to 4 and then 8 while the iterator runs *)
 Check dyn_fA_run.
+
+(* fuel adequacy under interleaved migration (Proofs/TravDynFuel.v): migration does not change
+   trav_fuel, and from ANY valid iterator state (mid-descent included) a call that answers None
+   with that much fuel leaves the iterator exhausted. Hence the full statement: whenever next()
+   answers None - whatever migrations were interleaved - every entry of the map has been yielded. *)
+From Flurry Require Import Proofs.TravDynFuel.
+
+Theorem C07_migration_keeps_fuel : forall hi steps f, trav_fuel (migrates hi steps f) = trav_fuel f.
+Proof. exact migrates_trav_fuel. Qed.
+Print Assumptions C07_migration_keeps_fuel.
+
+Theorem C07_live_complete : forall hi sched F f, wf_forest f = true -> trav_fuel f <= F ->
+  drain_dyn_stopped hi sched F f (new_iter f) = true ->
+  Permutation (drain_dyn hi sched F f (new_iter f)) (contents f).
+Proof. exact drain_dyn_complete_fuel. Qed.
+Print Assumptions C07_live_complete.
+
+Check dyn_fA_stopped.
